@@ -16,7 +16,7 @@ class Ty:
 
 
 PRIMS = ["bool", "u8", "i8", "u16", "i32", "u32", "i64", "u64", "usize", "f32", "f64", "char"]
-NAMED = ["S1", "S2"]
+NAMED = ["S1", "S2", "ma::Cfg", "mb::Cfg"]
 
 
 def render_ty(t, lifetimes=None, in_ret=False):
@@ -231,6 +231,13 @@ def build_family(seed, n):
         {"unsafe": False, "abi": 0, "params": [], "ret": Ty("ref", Ty("prim", "bool"), False)},
         {"unsafe": True, "abi": 1, "params": [Ty("prim", "u8")], "ret": Ty("prim", "bool")},
         {"unsafe": False, "abi": 0, "params": [Ty("fn", {"unsafe": False, "abi": 0, "params": [], "ret": Ty("prim", "bool")})], "ret": Ty("unit")},
+        # a user type that is merely *named* bool
+        {"unsafe": False, "abi": 0, "params": [], "ret": Ty("named", "flags::bool")},
+        # different nominal types sharing their last path segment
+        {"unsafe": False, "abi": 0, "params": [Ty("named", "ma::Cfg")], "ret": Ty("prim", "u8")},
+        {"unsafe": False, "abi": 0, "params": [Ty("named", "mb::Cfg")], "ret": Ty("prim", "u8")},
+        {"unsafe": False, "abi": 0, "params": [Ty("ref", Ty("named", "ma::Cfg"), False)], "ret": Ty("named", "mb::Cfg")},
+        {"unsafe": False, "abi": 0, "params": [Ty("ref", Ty("named", "mb::Cfg"), False)], "ret": Ty("named", "mb::Cfg")},
     ]
     for s in fixed:
         r = render_sig(s)
@@ -293,6 +300,9 @@ def gen_program(fam):
     L.append("static HIT: AtomicU64 = AtomicU64::new(0);")
     L.append("#[derive(Default, Clone, Copy, Debug)] pub struct S1 { a: u64 }")
     L.append("#[derive(Default, Clone, Debug)] pub struct S2 { a: u8, b: String }")
+    L.append("pub mod ma { #[derive(Default, Clone, Debug)] pub struct Cfg { pub a: u8 } }")
+    L.append("pub mod mb { #[derive(Default, Clone, Debug)] pub struct Cfg { pub a: u64, pub b: u64, pub c: u64 } }")
+    L.append("#[allow(non_camel_case_types)] pub mod flags { #[derive(Default, Clone, Debug)] pub struct bool(pub u64, pub u64, pub u64); }")
     tb, rb = [], []
     for i, s in enumerate(fam):
         params = ", ".join(f"_a{k}: {render_ty(p)}" for k, p in enumerate(s["params"]))
